@@ -80,6 +80,14 @@ func (s *Symb) h(term string) Hash {
 		if s.prefix {
 			copy(out[:12], "sharedprefix")
 		}
+	case term[0] == 'B':
+		// a hash that is zero except for one byte (B<i>: byte i is 1): values whose
+		// emptiness test, prefix or suffix could be mistaken
+		i, err := strconv.ParseUint(term[1:], 10, 64)
+		if err != nil || i > 31 {
+			panic("bad term " + term)
+		}
+		out[i] = 1
 	case term[0] == 'J':
 		i, err := strconv.ParseUint(term[1:], 10, 64)
 		if err != nil {
